@@ -664,4 +664,135 @@ EXTRA = [
     E('E-C02e-whitespace', 'mapproxy/service/templates/wmts100capabilities.xml', "<TileWidth>{{matrix.tile_size[0]}}</TileWidth>",
       "<TileWidth>{{ matrix.tile_size[0] }}</TileWidth>", 'whitespace inside the placeholder'),
     M('M-C02f-meters-per-degree', 'mapproxy/service/wmts.py', "METERS_PER_DEEGREE = 111319.4907932736", "METERS_PER_DEEGREE = 111139.4907932736", 'C02.f'),
+    # ---------------------------------------------------------------- C10
+    M('M-C10a-no-filter-map', 'mapproxy/service/wms.py', """        self.filter_actual_layers(actual_layers, map_request.params.layers, authorized_layers)
+
+        render_layers = []""", """        render_layers = []""", 'C10.a'),
+    M('M-C10a-wmts-auth-after-render', 'mapproxy/service/wmts.py', """        limited_to = self.authorize_tile_layer(tile_layer, request)
+
+        def decorate_img(image):
+            query_extent = tile_layer.grid.srs.srs_code, tile_layer.tile_bbox(request)
+            return self.decorate_img(image, 'wmts', [tile_layer.name], request.http.environ, query_extent)
+
+        tile = tile_layer.render(request, coverage=limited_to, decorate_img=decorate_img)
+""", """        def decorate_img(image):
+            query_extent = tile_layer.grid.srs.srs_code, tile_layer.tile_bbox(request)
+            return self.decorate_img(image, 'wmts', [tile_layer.name], request.http.environ, query_extent)
+
+        tile = tile_layer.render(request, coverage=None, decorate_img=decorate_img)
+        limited_to = self.authorize_tile_layer(tile_layer, request)
+""", 'C10.a|C10.b'),
+    M('M-C10a-kml-no-auth', 'mapproxy/service/kml.py', """        layer = self.layer(map_request)
+        limit_to = self.authorize_tile_layer(layer, map_request)
+        tile = layer.render(map_request, coverage=limit_to)""", """        layer = self.layer(map_request)
+        limit_to = None
+        tile = layer.render(map_request, coverage=limit_to)""", 'C10.a'),
+    M('M-C10a-tms-layer-no-auth', 'mapproxy/service/tile.py', """        limit_to = self.authorize_tile_layer(internal_layer, tile_request)
+        return internal_layer, limit_to""", """        limit_to = None
+        return internal_layer, limit_to""", 'C10.a'),
+    E('E-C10a-reordered-prologue', 'mapproxy/service/wms.py', """        p = request.params
+        query = InfoQuery(p.bbox, p.size, SRS(p.srs), p.pos,
+                          p['info_format'], format=request.params.format or None,
+                          feature_count=p.get('feature_count'))
+
+        actual_layers = odict()
+""", """        actual_layers = odict()
+        p = request.params
+        query = InfoQuery(p.bbox, p.size, SRS(p.srs), p.pos,
+                          p['info_format'], format=request.params.format or None,
+                          feature_count=p.get('feature_count'))
+""", 'independent statements reordered'),
+    M('M-C10b-wmts-coverage-none', 'mapproxy/service/wmts.py', "tile = tile_layer.render(request, coverage=limited_to, decorate_img=decorate_img)",
+      "tile = tile_layer.render(request, coverage=None, decorate_img=decorate_img)", 'C10.b'),
+    M('M-C10b-merge-no-coverage', 'mapproxy/service/wms.py', "bbox=query.bbox, bbox_srs=params.srs, coverage=coverage)",
+      "bbox=query.bbox, bbox_srs=params.srs, coverage=None)", 'C10.b'),
+    M('M-C10b-fi-no-gate', 'mapproxy/service/wms.py', """        if coverage and not coverage.contains(query.coord, query.srs):
+            infos = []
+        else:
+            info_layers = []""", """        if False:
+            infos = []
+        else:
+            info_layers = []""", 'C10.b'),
+    M('M-C10c-tms-forbidden-return', 'mapproxy/service/tile.py', """                    else:
+                        return None
+            raise RequestError('forbidden', status=403)
+
+    def authorized_tile_layers(self, env):""", """                    else:
+                        return None
+            return None
+
+    def authorized_tile_layers(self, env):""", 'C10.c'),
+    M('M-C10c-kml-is-true-inverted', 'mapproxy/service/kml.py', "if result['layers'].get(tile_layer.name, {}).get('tile', False) is True:",
+      "if result['layers'].get(tile_layer.name, {}).get('tile', False) is not True:", 'C10.c'),
+    M('M-C10c-wmts-default-true', 'mapproxy/service/wmts.py', "if result['layers'].get(tile_layer.name, {}).get(key, False) is True:",
+      "if result['layers'].get(tile_layer.name, {}).get(key, True) is True:", 'C10.c'),
+    M('M-C10c-wms-none-is-permit-all', 'mapproxy/service/wms.py', """            if result['authorized'] == 'full':
+                return PERMIT_ALL_LAYERS, None
+            layers = {}""", """            if result['authorized'] != 'partial':
+                return PERMIT_ALL_LAYERS, None
+            layers = {}""", 'C10.c'),
+    M('M-C10c-filter-keeps-unauthorized', 'mapproxy/service/wms.py', """                    # or implicit (part of group layer)
+                    else:
+                        del actual_layers[layer_name]""", """                    # or implicit (part of group layer)
+                    else:
+                        pass""", 'C10.c'),
+    E('E-C10c-early-return-style', 'mapproxy/service/wmts.py', """        if result['authorized'] == 'unauthenticated':
+            raise RequestError('unauthorized', status=401)
+        if result['authorized'] == 'full':
+            return
+        if result['authorized'] == 'partial':
+            if result['layers'].get(tile_layer.name, {}).get(key, False) is True:""", """        if result['authorized'] == 'full':
+            return
+        if result['authorized'] == 'unauthenticated':
+            raise RequestError('unauthorized', status=401)
+        if result['authorized'] == 'partial':
+            if result['layers'].get(tile_layer.name, {}).get(key, False) is True:""", 'reordered independent tests'),
+    M('M-C10d-clip-false', 'mapproxy/util/coverage.py', "    return GeomCoverage(geom, srs, clip=True)\n\n\nclass MultiCoverage", "    return GeomCoverage(geom, srs, clip=False)\n\n\nclass MultiCoverage", 'C10.d'),
+    M('M-C10d-no-global-mask', 'mapproxy/image/merge.py', """        # apply global clip coverage
+        if coverage:
+            bg = create_image(size, image_opts)""", """        # apply global clip coverage
+        if coverage and len(self.layers) > 1:
+            bg = create_image(size, image_opts)""", 'C10.d'),
+    E('E-C10d-demorgan-fastpath', 'mapproxy/image/merge.py', "                and (not layer_coverage or not layer_coverage.clip)\n                    and not coverage):",
+      "                and not (layer_coverage and layer_coverage.clip)\n                    and not coverage):", 'De Morgan'),
+    M('M-C10e-flag-false', 'mapproxy/service/tile.py', """            elif coverage.intersects(tile_bbox, self.grid.srs):
+                coverage_intersects = True
+            else:
+                return self.empty_response()
+
+        dimensions = self.checked_dimensions(tile_request)""", """            elif coverage.intersects(tile_bbox, self.grid.srs):
+                coverage_intersects = False
+            else:
+                return self.empty_response()
+
+        dimensions = self.checked_dimensions(tile_request)""", 'C10.e'),
+    M('M-C10e-disjoint-rendered', 'mapproxy/service/tile.py', """            elif coverage.intersects(tile_bbox, self.grid.srs):
+                coverage_intersects = True
+            else:
+                return self.empty_response()
+
+        dimensions = self.checked_dimensions(info_request)""", """            elif coverage.intersects(tile_bbox, self.grid.srs):
+                coverage_intersects = True
+            else:
+                pass
+
+        dimensions = self.checked_dimensions(info_request)""", 'C10.e'),
+    E('E-C10e-not-contains-form', 'mapproxy/service/tile.py', """            if coverage.contains(tile_bbox, self.grid.srs):
+                pass
+            elif coverage.intersects(tile_bbox, self.grid.srs):
+                coverage_intersects = True
+            else:
+                return self.empty_response()
+
+        dimensions = self.checked_dimensions(tile_request)""", """            if not coverage.contains(tile_bbox, self.grid.srs):
+                if coverage.intersects(tile_bbox, self.grid.srs):
+                    coverage_intersects = True
+                else:
+                    return self.empty_response()
+
+        dimensions = self.checked_dimensions(tile_request)""", 'nested form'),
+    M('M-C10f-limited-fi-ungated', 'mapproxy/layer.py', """        if self.coverage:
+            if not self.coverage.contains(query.coord, query.srs):
+                return None
+        return self._layer.get_info(query)""", """        return self._layer.get_info(query)""", 'C10.f'),
 ]
